@@ -149,14 +149,26 @@ def ceilSqrt (d : Nat) : Nat := if isqrt d * isqrt d < d then isqrt d + 1 else i
 def fwgFinish (n a d : Nat) : Option (List Nat) :=
   if isSquare (a * a - d) then splitBy (Nat.gcd (a + isqrt (a * a - d)) n) n else none
 
-/-- the loop over convergents. Note the pinned control flow: the first admissible
-convergent decides (`return None` inside the `if`). -/
+/-- the loop over convergents (code after `fix: FactorWithGuess tries every convergent in
+Lehman's range`): an admissible convergent whose Fermat step fails no longer ends the search
+unless `u * v > bound`. -/
 def fwgLoop (n p0 q0 bound : Nat) : List (Nat × Nat × Nat) → Option (List Nat)
   | [] => none
   | (_, u, v) :: rest =>
     if ((u : Int) * q0 - (v : Int) * p0).natAbs < bound then
-      fwgFinish n (ceilSqrt (4 * u * v * n)) (4 * u * v * n)
+      match fwgFinish n (ceilSqrt (4 * u * v * n)) (4 * u * v * n) with
+      | some fs => some fs
+      | none => if u * v > bound then none else fwgLoop n p0 q0 bound rest
     else fwgLoop n p0 q0 bound rest
+
+/-- the pinned (pre-fix) control flow: the first admissible convergent decides. Kept to
+document defect D6b; not used by the driver. -/
+def fwgLoopPinned (n p0 q0 bound : Nat) : List (Nat × Nat × Nat) → Option (List Nat)
+  | [] => none
+  | (_, u, v) :: rest =>
+    if ((u : Int) * q0 - (v : Int) * p0).natAbs < bound then
+      fwgFinish n (ceilSqrt (4 * u * v * n)) (4 * u * v * n)
+    else fwgLoopPinned n p0 q0 bound rest
 
 /-- `FactorWithGuess(n, p_0)`; `cbrt = int((n >> 3*shift) ** (1/3))` is the float oracle. -/
 def factorWithGuess (n p0 cbrt : Nat) : Except PyErr (Option (List Nat)) :=
@@ -181,7 +193,7 @@ def sudLoop (n cbrt : Nat) : List Nat → Except PyErr (Option (List Nat))
 
 /-- `CheckSmallUpperDifferences(n)`. -/
 def checkSmallUpperDifferences (n cbrt : Nat) : Except PyErr (Option (List Nat)) :=
-  let primeSize := bitLength n / 2
+  let primeSize := (bitLength n + 1) / 2
   if primeSize < 384 then .ok none else sudLoop n cbrt (sudDifferences primeSize)
 
 /-! ### Pollardpm1 -/
